@@ -67,7 +67,9 @@ def make_dataset(S, state):
                 L = S.array1d("ds." + d, KIND[d])
                 assume_order(S, L, "unique")
                 labels[d] = L
-            axes.append(da.Axis(S.snapshot(labels[d]), d))
+            own = S.snapshot(labels[d])
+            S.tag(own, "order", "unique")          # (the copy carries the same labels: the order assumed of them holds for it)
+            axes.append(da.Axis(own, d))
         data = S.arraynd("ds.%s.data" % key, "f", tuple(S.n(labels[d]) for d in dims))
         ds[key] = da.DimArray(data, axes=axes)
     if state in APPENDED:
@@ -1091,3 +1093,126 @@ class DatasetDatasetOp(Contract):
 
     def canaries(self, S, case, env, result):
         yield "result-has-no-y-labels", S.n(result.axes["y"].values) == 0
+
+
+def _align_stubs():
+    from dverif.stubs import stub_of
+    from .align import ReindexAxis, GetAlignedAxes
+    return (stub_of(ReindexAxis), stub_of(GetAlignedAxes), _locatemany_stub())
+
+
+class AlignDataset(Contract):
+    """align([ds, other], join, sort) where ds is a Dataset a(x), b(x, y), c(y) and other a DimArray over x or a second
+    Dataset (the quantifier's 'and Datasets'): with `common` the axes _get_aligned_axes returns for the two operands, the
+    aligned Dataset has exactly the common labels on every aligned dimension, satisfies the shared-axes invariant, and
+    each of its variables holds the operand variable's slice at every label it had and NaN elsewhere (the variable without
+    the dimension is unchanged); the other operand likewise; outputs in the inputs' order and of the inputs' types; no
+    operand is modified.  Dataset.reindex_axis runs as real code (own contract: DatasetReindexAxis, C14).  [C06]"""
+    target = "dimarray.core.align:align"
+    props = ("C06",)
+    uses = _align_stubs()
+    inlined = ("Dataset.reindex_axis (own contract: DatasetReindexAxis, C14)", "Dataset.take_axis", "reduce_axis", "Dataset.__setitem__ (own contract, C13)", "Axis.__eq__")
+    max_paths = 2500
+
+    def cases(self, tier):
+        for other in ("dimarray", "dataset"):
+            for join in ("outer", "inner"):
+                for sort in (False, True):
+                    if tier == "quick" and sort:
+                        continue            # (several hundred paths each: thorough tier)
+                    yield {"name": "ds|%s-%s-%s" % (other, join, "sort" if sort else "nosort"), "other": other, "join": join, "sort": sort}
+
+    def bounded_obligations(self, case):
+        return ("raises[IndexError]",) if case["join"] == "inner" else ()     # as in Align: rests on AxisIntersection's set-level clause
+
+    bound_names = ("ds.x.n", "ds.y.n", "o.x.n")
+
+    def setup(self, S, case):
+        ds, labels = make_dataset(S, "a(x),b(x,y),c(y)")
+        ds.attrs["title"] = "t"
+        L = S.array1d("o.x", KIND["x"])
+        assume_order(S, L, "unique")
+        if case["other"] == "dimarray":
+            odata = S.arraynd("o.data", "f", (S.n(L),))
+            other = S.da.DimArray(odata, axes=[S.da.Axis(L, "x")])
+            osnap = S.snapshot(odata)
+        else:
+            other = S.da.Dataset()
+            odata = S.arraynd("o.data", "f", (S.n(L),))
+            own = S.snapshot(L)
+            S.tag(own, "order", "unique")
+            other["a"] = S.da.DimArray(odata, axes=[S.da.Axis(own, "x")])
+            osnap = snapshot_ds(S, other)
+        return {"ds": ds, "labels": labels, "snap": snapshot_ds(S, ds), "other": other, "olab": L, "odata": odata, "osnap": osnap}
+
+    def call(self, fn, env):
+        import importlib
+        mod = importlib.import_module("dimarray.core.align")
+        case = env["case"]
+        return mod.align([env["ds"], env["other"]], join=case["join"], sort=case["sort"])
+
+    def raises(self, S, case, env):
+        return {IndexError: False, ValueError: False}
+
+    def post(self, S, case, env, result):
+        from .common import absent
+        ds, snap, labels = env["ds"], env["snap"], env["labels"]
+        X, Y, OX = labels["x"], labels["y"], env["olab"]
+        calls = [cl for cl in S.calls("GetAlignedAxes") if any(o is ds for o in cl[2]["arrays"])]     # (Dataset() inside reduce_axis aligns nothing: not that call)
+        if calls:
+            common = calls[0][3]
+            yield "join-and-sort-forwarded", calls[0][2]["join"] == case["join"] and bool(calls[0][2]["sort"]) == case["sort"] and len(calls) == 1
+        else:
+            import importlib
+            common = importlib.import_module("dimarray.core.align")._get_aligned_axes([ds, env["other"]], join=case["join"], sort=case["sort"])
+        C = {ax.name: ax.values for ax in common}
+        ok = isinstance(result, list) and len(result) == 2 and type(result[0]) is type(ds) and type(result[1]) is type(env["other"])
+        yield "one-output-per-input-in-order-and-of-its-type", ok
+        if not ok:
+            return
+        out, oth = result
+        ok = list(dict.keys(out)) == ["a", "b", "c"] and sorted(ax.name for ax in out.axes) == ["x", "y"]
+        yield "dataset:same-variables-and-dimensions", ok
+        if not ok:
+            return
+        for c in ds_inv(S, out):
+            yield c
+        Xr, Yr = out.axes["x"].values, out.axes["y"].values
+        CX, CY = C["x"], C["y"]
+        same_labels = lambda A, B: S.land(S.n(A) == S.n(B), S.forall(0, S.n(B), lambda j: S.implies(j < S.n(A), lambda: S.at(A, j) == S.at(B, j))))
+        yield "dataset:x-is-the-common-axis", same_labels(Xr, CX)
+        yield "dataset:y-is-the-common-axis", same_labels(Yr, CY)
+        a, b, c = _var(out, "a"), _var(out, "b"), _var(out, "c")
+        a0, b0, c0 = snap["data"]["a"], snap["data"]["b"], snap["data"]["c"]
+        ok = tuple(a.dims) == ("x",) and tuple(b.dims) == ("x", "y") and tuple(c.dims) == ("y",)
+        yield "dataset:dims-of-the-variables-kept", ok
+        if not ok:
+            return
+        nx, ny, m, my = S.n(X), S.n(Y), S.n(CX), S.n(CY)
+        yield "a:present-labels-keep-their-cell", S.forall(0, m, lambda k: S.forall(0, nx, lambda p: S.implies(S.at(X, p) == S.at(CX, k), lambda: S.same(S.at(a.values, k), S.at(a0, p)))))
+        yield "a:missing-labels-are-nan", S.forall(0, m, lambda k: S.implies(absent(S, X, S.at(CX, k)), lambda: S.isnan(S.at(a.values, k))))
+        yield "b:present-labels-keep-their-cell", S.forall_nd([m, my], lambda k, j: S.forall(0, nx, lambda p: S.forall(0, ny, lambda q: S.implies(
+            S.land(S.at(X, p) == S.at(CX, k), S.at(Y, q) == S.at(CY, j)), lambda: S.same(S.at(b.values, k, j), S.at(b0, p, q))))))
+        yield "b:missing-labels-are-nan", S.forall_nd([m, my], lambda k, j: S.implies(
+            S.lor(absent(S, X, S.at(CX, k)), absent(S, Y, S.at(CY, j))), lambda: S.isnan(S.at(b.values, k, j))))
+        yield "c:present-labels-keep-their-cell", S.forall(0, my, lambda j: S.forall(0, ny, lambda q: S.implies(S.at(Y, q) == S.at(CY, j), lambda: S.same(S.at(c.values, j), S.at(c0, q)))))
+        yield "dataset-metadata-carried-over", dict(out.attrs) == snap["attrs"]
+        # the other operand
+        ov = oth.values if case["other"] == "dimarray" else _var(oth, "a").values
+        oL = oth.axes[0].values if case["other"] == "dimarray" else oth.axes["x"].values
+        o0 = env["osnap"] if case["other"] == "dimarray" else env["osnap"]["data"]["a"]
+        yield "other:x-is-the-common-axis", same_labels(oL, CX)
+        yield "other:present-labels-keep-their-cell", S.forall(0, m, lambda k: S.forall(0, S.n(OX), lambda p: S.implies(S.at(OX, p) == S.at(CX, k), lambda: S.same(S.at(ov, k), S.at(o0, p)))))
+        yield "other:missing-labels-are-nan", S.forall(0, m, lambda k: S.implies(absent(S, OX, S.at(CX, k)), lambda: S.isnan(S.at(ov, k))))
+        for cl in unchanged_ds(S, ds, snap):
+            yield ("operand-dataset:" + cl[0],) + tuple(cl[1:])
+        if case["other"] == "dataset":
+            for cl in unchanged_ds(S, env["other"], env["osnap"]):
+                yield ("operand-other:" + cl[0],) + tuple(cl[1:])
+        else:
+            o = env["other"]
+            yield "operand-other:untouched", S.land(o.values is env["odata"], S.forall(0, S.n(OX), lambda p: S.same(S.at(o.values, p), S.at(env["osnap"], p))),
+                                                    same_labels(o.axes[0].values, OX))
+
+    def canaries(self, S, case, env, result):
+        yield "returns-the-inputs-themselves", result[0] is env["ds"] and result[1] is env["other"]
